@@ -18,3 +18,10 @@ mod ringbuffer;
 pub(crate) mod scratch;
 pub(crate) mod sequence_execution;
 pub(crate) mod sequence_section_decoder;
+
+/// Verification hooks: re-exports of crate-private decoder parts, only with `--cfg zstd_rs_verif`.
+#[cfg(zstd_rs_verif)]
+pub mod verif {
+    pub use super::decode_buffer::DecodeBuffer;
+    pub use super::ringbuffer::RingBuffer;
+}
